@@ -413,7 +413,7 @@ func (rt *runtime) convertCallParameter(v Value, t reflect.Type) (reflect.Value,
 		case valueString:
 			return reflect.ValueOf(v.value), nil
 		case valueNumber:
-			return reflect.ValueOf(fmt.Sprintf("%v", v.value)), nil
+			return reflect.ValueOf(v.string()), nil
 		}
 	case reflect.Int, reflect.Int8, reflect.Int16, reflect.Int32, reflect.Int64, reflect.Uint, reflect.Uint8, reflect.Uint16, reflect.Uint32, reflect.Uint64, reflect.Float32, reflect.Float64:
 		if v.kind == valueNumber {
